@@ -60,6 +60,25 @@ def _local_vertex_class():
 LocalV = _local_vertex_class()
 
 
+class MainV(VSub):
+    """a vertex class as a user writes it in a script: it lives in `__main__` (dill pickles such classes by value), its
+    __init__ uses super(), and it may carry a class attribute that points into the graph (ROOT)"""
+    ROOT = None
+
+    def __init__(self, *a, **k):
+        super().__init__(*a, **k)
+
+
+MainV.__module__ = "__main__"
+MainV.__qualname__ = "MainV"
+
+
+def install_main_classes():
+    """make `__main__.MainV` resolvable in this process (dill's by-reference fallback, pickle.loads)"""
+    import sys
+    setattr(sys.modules["__main__"], "MainV", MainV)
+
+
 class DSub(DirectedEdge):
     pass
 
@@ -78,6 +97,7 @@ CLS_KIND = {v: k for k, v in KIND_CLS.items()}
 CLS_KIND[FalsyV] = "KVertexSub"
 CLS_KIND[HashV] = "KVertexSub"
 CLS_KIND[LocalV] = "KVertexSub"
+CLS_KIND[MainV] = "KVertexSub"
 # class choice of a generated NV op: plain Vertex, a subclass, a subclass whose instances are FALSY (legal: the library
 # must test `is None`, never truthiness)
 NV_CLASSES = [False, False, False, False, False, True, True, 2, 2, 2]
@@ -209,7 +229,7 @@ class World:
         if t == "NV":
             us = [g(i, U) for i in op[2]]
             ls = [g(i, L) for i in op[3]]
-            cls = LocalV if op[1] == 4 else HashV if op[1] == 3 else FalsyV if op[1] == 2 else VSub if op[1] else Vertex
+            cls = MainV if op[1] == 5 else LocalV if op[1] == 4 else HashV if op[1] == 3 else FalsyV if op[1] == 2 else VSub if op[1] else Vertex
             kw = {}
             if us:
                 kw["universes"] = self._container(us)
